@@ -113,6 +113,9 @@ func (c *Collection) StartDCPFeed(
 	c.bucket.mutex.Lock()
 	defer c.bucket.mutex.Unlock()
 
+	if c.bucket.closed {
+		return ErrBucketClosed // without a backfill nothing below would notice, and nothing would ever end the feed
+	}
 	if args.Backfill != sgbucket.FeedNoBackfill {
 		debug("%s starting backfill from CAS 0x%x", feed, startCas)
 		feed.events.push(&sgbucket.FeedEvent{Opcode: sgbucket.FeedOpBeginBackfill})
